@@ -242,9 +242,58 @@ def _wait(ctx, w):
     ctx.cover(("wait", "none" if filt is None else ("zero" if filt == 0 else "code"), pattern, res is not None))
 
 
+def _mode_t_observation(ctx):
+    """Mode T, observation only (rule 7): a waiter task and the receive task under
+    the seeded scheduler.  When two frames are delivered before the waiter runs
+    again, wait() looks at log[-1] only and can miss a matching entry.  The
+    property does not quantify over schedules, so this is counted, not judged;
+    what IS judged is that log/active still mirror the history."""
+    ctx.enable_threads((0, 4)[ctx.choice(2, "policy")])
+    if ctx.choice(2, "stalls"):
+        ctx.stall = lambda: (0, 0, 300 * US, 3 * MS)[ctx.choice(4, "stall")]
+        ctx.fault("slow-task")
+    w = W(ctx)
+    w.log_all = []
+    cons = w.r.emcy
+    filt = (None, 0x8110, 0x0000)[ctx.choice(3, "filter")]
+    codes = [(0x8110, 0x1000, 0x0000, 0x5000)[ctx.choice(4, "code")] for _ in range(1 + ctx.choice(4, "nframes"))]
+    gaps = [(0, 0, 0.0002, 0.002)[ctx.choice(4, "gap")] for _ in codes]
+    result = []
+
+    def producer():
+        for c, g in zip(codes, gaps):
+            if g:
+                ctx.sleep(g)
+            w.raw.send(0x80 + w.nid, bytes([c & 0xFF, c >> 8, 1, 0, 0, 0, 0, 0]))
+
+    def waiter():
+        result.append(cons.wait(filt, 0.05))
+    ctx.spawn("producer", producer)
+    ctx.spawn("waiter", waiter)
+    ctx.run_tasks()
+    for t in ctx.tasks:
+        if t.exc is not None:
+            raise t.exc
+    # drain what is still on the wire (main thread, no task is running any more)
+    got = [(e.code, e.register) for e in cons.log]
+    if got != [(c, 1) for c in codes[:len(got)]]:
+        ctx.violation("C16/log/fields", "Mode T: log %r, frames sent %r" % (got, codes))
+    matching = [c for c in codes[:len(got)] if filt is None or c == filt]
+    r = result[0]
+    if matching and r is None:
+        ctx.observe("mode-T: wait() returned None although a matching entry was delivered during the wait (two deliveries before the waiter ran; not judged)")
+    elif matching and r.code != matching[0]:
+        ctx.observe("mode-T: wait() handed over a later matching entry than the first one (not judged)")
+    else:
+        ctx.observe("mode-T: wait() outcome as in the sequential model")
+    ctx.cover(("mode-T-observation", filt is None, len(codes), r is not None))
+
+
 def scenario(ctx):
-    mode = ctx.choice(3, "mode")
+    mode = ctx.choice(4, "mode")
     blk = ctx.choice(16, "blk")
+    if mode == 3:
+        return _mode_t_observation(ctx)
     if mode == 1:
         # description table: 4096 codes per run
         for code in range(blk * 4096, blk * 4096 + 4096):
